@@ -179,6 +179,11 @@ type ImageSel struct {
 	// Enumerate: one image per subset of the flush's page writes (only when the
 	// write set has at most 6 pages; larger flushes fall back to SubsetSeed)
 	Enumerate bool `json:"enumerate,omitempty"`
+	// OnlyStrict: the image is dropped unless its class is one the engine is
+	// expected to survive (nothing / only new pages / complete / all pages of a
+	// flush that allocated nothing, header missing): used outside C04, where the
+	// open C04 findings must not be re-reported under another property
+	OnlyStrict bool `json:"only_strict,omitempty"`
 	// Cont: what happens after recovery (statements, directives, nested images)
 	Cont *Plan `json:"cont,omitempty"`
 }
